@@ -564,6 +564,151 @@ def recSet (r : String) (vals : List Val) (field : String) (v : Val) : List Val 
 
 def kfFunctions : List String := ["has_group", "first_entry", "first_definition", "find_key", "getFromGroupList"]
 
+/-! the copying functions (`setGroupList`, `cpy_file_entry`, the three steps of `econf_mergeFiles`): objects with values -/
+
+def mergeFunctions : List String := ["setGroupList", "cpy_file_entry", "merge3"]
+
+open MiniC in
+/-- append an `econf_file` described by an `e…` / `g…` token (entries may carry a third field, the value; `-` = NULL);
+    returns the memory and the index of the struct block -/
+def addKf (m : Mem) (spec : String) : Mem × Nat :=
+  let items := if spec.length ≤ 1 then [] else (spec.drop 1).toString.splitOn ","
+  let n := items.length
+  let kf1 := recSet "econf_file" (recSet "econf_file" (recDefault "econf_file") "delimiter" (.int 61)) "comment" (.int 35)
+  if spec.startsWith "e" then
+    -- strings first, then the array, then the struct
+    let step := fun (acc : Mem × List Val × Nat) (it : String) =>
+      let (mem, arr, i) := acc
+      let fs := it.splitOn ":"
+      let g := decD (fs.getD 0 "h")
+      let k := decD (fs.getD 1 "h")
+      let mem1 := mem ++ [strBlock g, strBlock k]
+      let gp := Val.ptr mem.length 0
+      let kp := Val.ptr (mem.length + 1) 0
+      let (mem2, vp) : Mem × Val := match fs[2]? with
+        | some v => if v.startsWith "h" then (mem1 ++ [strBlock (decD v)], Val.ptr mem1.length 0) else (mem1, Val.null)
+        | none => (mem1, Val.null)
+      let e0 := recSet "file_entry" (recSet "file_entry" (recSet "file_entry" (recDefault "file_entry") "group" gp) "key" kp) "value" vp
+      let e := recSet "file_entry" e0 "line_number" (.int (10 + i))
+      (mem2, arr ++ e, i + 1)
+    let (mem, arr, _) := items.foldl step (m, [], 0)
+    let arrIdx := mem.length
+    let kf := recSet "econf_file" (recSet "econf_file" (recSet "econf_file" kf1 "file_entry" (.ptr arrIdx 0)) "length" (.int n)) "alloc_length" (.int n)
+    (mem ++ [{ cells := [], slots := arr }, { cells := [], slots := kf }], arrIdx + 1)
+  else
+    let step := fun (acc : Mem × List Val) (it : String) => (acc.1 ++ [strBlock (decD it)], acc.2 ++ [Val.ptr acc.1.length 0])
+    let (mem, ptrs) := items.foldl step (m, [])
+    let arrIdx := mem.length
+    let kf := recSet "econf_file" (recSet "econf_file" kf1 "groups" (.ptr arrIdx 0)) "group_count" (.int n)
+    (mem ++ [{ cells := [], slots := ptrs ++ [.null] }, { cells := [], slots := kf }], arrIdx + 1)
+
+open MiniC in
+def recGet (r : String) (vals : List Val) (field : String) : Val :=
+  match (recFields r).findIdx? (fun p => p.1 == field) with
+  | some i => vals.getD i .undef
+  | none => .undef
+
+open MiniC in
+def optStr (m : Mem) (v : Val) : String :=
+  match v with
+  | .null => "-"
+  | .ptr b o => (match m.cstr b o with | .ok s => hexStr s | .error e => s!"unreadable({repr e})")
+  | v => s!"notapointer({repr v})"
+
+open MiniC in
+/-- the group list of an object: ` g<hex>,<hex>…`, and the index of a pointer in it -/
+def groupsOf (m : Mem) (kfIdx : Nat) : List Val × String :=
+  match m[kfIdx]? with
+  | none => ([], " gNOOBJECT")
+  | some blk =>
+    let cnt := match recGet "econf_file" blk.slots "group_count" with | .int n => n.toNat | _ => 0
+    match recGet "econf_file" blk.slots "groups" with
+    | .ptr b _ =>
+      let sl := (m[b]?.map (·.slots)).getD []
+      let ps := sl.take cnt
+      let names := ps.map (optStr m)
+      let term := if sl.getD cnt .undef == .null then "" else " NOT-TERMINATED"
+      (ps, " g" ++ ",".intercalate names ++ term)
+    | _ => ([], " g")
+
+def idxOf (ps : List MiniC.Val) (v : MiniC.Val) : String :=
+  match ps.findIdx? (· == v) with
+  | some i => toString i
+  | none => "-1"
+
+open MiniC in
+def runFn (name : String) (fuel : Nat) (m : Mem) (args : List Val) : Except String (Val × Mem) :=
+  match LeafFns.all.find? (fun fn => fn.name == name) with
+  | none => .error "?"
+  | some fn =>
+    match fn.run fuel m args with
+    | .error e => .error s!"fault {repr e}"
+    | .ok r => .ok r
+
+open MiniC in
+def mergeLine (t : Array String) : String :=
+  let f := t.getD 0 ""
+  let fuel := (t.getD 1 "").length + (t.getD 2 "").length + 16
+  if f == "setGroupList" then
+    let (m0, kf) := addKf [] (t.getD 1 "g")
+    let m1 := m0 ++ [strBlock (decD (t.getD 2 "h"))]
+    match runFn f fuel m1 [.ptr kf 0, .ptr m0.length 0] with
+    | .error e => s!"{f} {e}"
+    | .ok (v, m) =>
+      let (ps, gs) := groupsOf m kf
+      s!"{f} {idxOf ps v}{gs}"
+  else if f == "cpy_file_entry" then
+    let (m0, dest) := addKf [] (t.getD 1 "g")
+    let (m1, src) := addKf m0 (t.getD 2 "e")
+    let i := ((t.getD 3 "n0").drop 1).toString.toNat?.getD 0
+    let arr := src - 1
+    -- the source entry has its quote flag set: the copy must not
+    let m2 : Mem := match m1[arr]? with
+      | some blk => m1.set arr { blk with slots := blk.slots.set (7 * i + 6) (.int 1) }
+      | none => m1
+    match runFn f fuel m2 [.ptr dest 0, .ptr arr (7 * i)] with
+    | .error e => s!"{f} {e}"
+    | .ok (v, m) =>
+      match v with
+      | .ptr b o =>
+        let sl := ((m[b]?.map (·.slots)).getD []).drop o.toNat
+        let (ps, gs) := groupsOf m dest
+        let num := fun (v : Val) => match v with | .int n => toString n | v => s!"({repr v})"
+        s!"{f} {idxOf ps (recGet "file_entry" sl "group")} {optStr m (recGet "file_entry" sl "key")} {optStr m (recGet "file_entry" sl "value")} {optStr m (recGet "file_entry" sl "comment_before_key")} {optStr m (recGet "file_entry" sl "comment_after_value")} {num (recGet "file_entry" sl "line_number")} {num (recGet "file_entry" sl "quotes")}{gs}"
+      | v => s!"{f} unexpected result {repr v}"
+  else
+    -- merge3: what econf_mergeFiles does with its two inputs
+    let (m0, uf) := addKf [] (t.getD 1 "e")
+    let (m1, ef) := addKf m0 (t.getD 2 "e")
+    let len := fun (m : Mem) (k : Nat) => match (m[k]?.map (fun b => recGet "econf_file" b.slots "length")) with | some (.int n) => n.toNat | _ => 0
+    let total := len m1 uf + len m1 ef
+    let dest := m1.length
+    let feBlk := dest + 1
+    let cell := dest + 2
+    let m2 : Mem := m1 ++ [{ cells := [], slots := recDefault "econf_file" }, { cells := [], slots := List.replicate (7 * total) .undef },
+      { cells := [], slots := [.ptr feBlk 0] }]
+    let fuel := fuel + total
+    match runFn "insert_nogroup" fuel m2 [.ptr dest 0, .ptr cell 0, .ptr uf 0, .ptr ef 0] with
+    | .error e => s!"{f} insert_nogroup {e}"
+    | .ok (.int l1, m3) =>
+      match runFn "merge_existing_groups" fuel m3 [.ptr dest 0, .ptr cell 0, .ptr uf 0, .ptr ef 0, .int l1] with
+      | .error e => s!"{f} {l1} merge_existing_groups {e}"
+      | .ok (.int l2, m4) =>
+        match runFn "add_new_groups" fuel m4 [.ptr dest 0, .ptr cell 0, .ptr uf 0, .ptr ef 0, .int l2] with
+        | .error e => s!"{f} {l1} {l2} add_new_groups {e}"
+        | .ok (.int l3, m5) =>
+          let (ps, gs) := groupsOf m5 dest
+          let feNow := match (m5[cell]?.map (·.slots)) with | some [.ptr b _] => b | _ => feBlk
+          let sl := (m5[feNow]?.map (·.slots)).getD []
+          let num := fun (v : Val) => match v with | .int n => toString n | v => s!"({repr v})"
+          let ent := fun (i : Nat) =>
+            let e := (sl.drop (7 * i)).take 7
+            s!"{idxOf ps (recGet "file_entry" e "group")}:{optStr m5 (recGet "file_entry" e "key")}:{optStr m5 (recGet "file_entry" e "value")}:{num (recGet "file_entry" e "line_number")}:{num (recGet "file_entry" e "quotes")}"
+          s!"{f} {l1} {l2} {l3} e" ++ ",".intercalate ((List.range l3.toNat).map ent) ++ gs
+        | .ok (v, _) => s!"{f} add_new_groups returned {repr v}"
+      | .ok (v, _) => s!"{f} merge_existing_groups returned {repr v}"
+    | .ok (v, _) => s!"{f} insert_nogroup returned {repr v}"
+
 open MiniC in
 def kfLine (t : Array String) : String :=
   let f := t.getD 0 ""
@@ -578,7 +723,7 @@ def kfLine (t : Array String) : String :=
     else recSet "econf_file" (recSet "econf_file" kf1 "groups" (.ptr 1 0)) "group_count" (.int n)
   let strs : List (List UInt8) := if isE then
       items.flatMap (fun it => match it.splitOn ":" with
-        | [g, k] => [decD g, decD k]
+        | g :: k :: _ => [decD g, decD k]
         | _ => [[], []])
     else items.map (fun it => decD it)
   let arr : List Val := if isE then
@@ -617,6 +762,7 @@ open MiniC in
 def leafLine (t : Array String) : String :=
   let f := t.getD 0 ""
   if kfFunctions.contains f then kfLine t else
+  if mergeFunctions.contains f then mergeLine t else
   let a := decD (t.getD 1 "h")
   let b := decD (t.getD 2 "h")
   let c := decD (t.getD 3 "h")
